@@ -8,6 +8,8 @@
 From Coq Require Import List String NArith ZArith Bool.
 From Verif Require Import Base.Text Gen.GenPanicSites Model.Lexer Model.Literals Model.Analyzer Model.Decode
   Proofs.LexerTile Proofs.PanicInventory Proofs.LitProofs Proofs.AnalyzerProofs Proofs.Utf.
+From Verif Require Model.StParser Model.StInstance Proofs.StExprProofs Proofs.StStmtProofs Proofs.StInstanceProofs.
+From Verif Require Import Gen.GenTokens.
 Import ListNotations.
 
 (* every unwrap / expect / panic! / todo! / unreachable! in the input-reachable files is a reviewed one *)
@@ -31,3 +33,17 @@ Proof. exact rule_subrange_spec. Qed.
 (* any byte sequence without a byte order mark decodes to a text *)
 Theorem C04_decode_total : forall bs, sniff bs = None -> cascade decoders_expected bs <> None.
 Proof. exact cascade_total_without_bom. Qed.
+
+(* the recursion of the statement / expression parser model is tied with fuel; the fuel its entry point supplies (three per
+   token) is never exhausted on a well-formed statement list, whatever its size and nesting depth: the termination
+   argument of the recursive-descent parser on the modelled sub-language (stack depth and wall-clock time are observed) *)
+Theorem C04_statement_parser_fuel : forall w00 fb w0 nm w1 (l : StStmtProofs.sl token) w2 en w3,
+  StExprProofs.all_triv token StInstance.tok_class w00 -> t_kind fb = KFunctionBlock ->
+  StExprProofs.all_triv token StInstance.tok_class w0 -> t_kind nm = KIdentifier ->
+  StExprProofs.all_triv token StInstance.tok_class w1 ->
+  StStmtProofs.wf_l token StInstance.tok_class StInstance.op_level l ->
+  StExprProofs.all_triv token StInstance.tok_class w2 -> t_kind en = KEndFunctionBlock ->
+  StExprProofs.all_triv token StInstance.tok_class w3 ->
+  StParser.in_scope token StInstance.tok_class (StStmtProofs.flat_l token l ++ w2 ++ en :: w3) = true ->
+  StInstance.parse_fb_tokens (w00 ++ fb :: w0 ++ nm :: w1 ++ StStmtProofs.flat_l token l ++ w2 ++ en :: w3) <> StInstance.OFuel.
+Proof. exact StInstanceProofs.parse_fb_fuel. Qed.
